@@ -35,8 +35,10 @@ var Kinds = []Kind{
 	// the second annotation key starts with a character that sorts below '-' (the removal marker)
 	{Name: "annotation", Keyed: true, Keys: []string{"ka", "+kb"}, InAdjust: true, Removable: true},
 	{Name: "env", Keyed: true, Keys: []string{"EA", "EB"}, InAdjust: true, Removable: true},
-	{Name: "mount", Keyed: true, Keys: []string{"/ma", "/mb"}, InAdjust: true, Removable: true},
-	{Name: "device", Keyed: true, Keys: []string{"/dev/da", "/dev/db"}, InAdjust: true, Removable: true},
+	{Name: "mount", Keyed: true, Keys: []string{"/ma", "/dev/da"}, InAdjust: true, Removable: true},
+	// the second device path is legal but not in canonical form; the second mount destination (above)
+	// is the first device's path: the two kinds have separate key spaces
+	{Name: "device", Keyed: true, Keys: []string{"/dev/da", "/dev//db"}, InAdjust: true, Removable: true},
 	{Name: "args", InAdjust: true, Removable: true},
 	{Name: "cdi", Keyed: true, Keys: []string{"v.com/c=a", "v.com/c=b"}, InAdjust: true, List: true, NoView: true},
 	{Name: "rlimit", Keyed: true, Keys: []string{"RLIMIT_NOFILE", "RLIMIT_NPROC"}, InAdjust: true, List: true},
